@@ -30,8 +30,9 @@ def gen_buffers(thorough):
             fmt = 5 if xt == D.NC_INT64 else 2
             mems = [D.XT_MEM[xt], 'double' if xt != D.NC_DOUBLE else 'float']          # same type (swap only) and converting
             for mem in mems:
-                s = Script('BUF-%s-x%d-%s' % ((hint or 'auto').split('=')[-1], xt, mem), 1, fmt, [('x', 2 * N + 40), ('t', None)], [('v', xt, [0]), ('r', xt, [1, 0])], hints=hint)
-                s.put('*', 0, [0], [2 * N + 40], None, form='vara', coll=1, tag=5, scale=1)
+                XL = 2 * (4096 // D.XT_SIZE[xt] + 1) + 40
+                s = Script('BUF-%s-x%d-%s' % ((hint or 'auto').split('=')[-1], xt, mem), 1, fmt, [('x', XL), ('t', None)], [('v', xt, [0]), ('r', xt, [1, 0])], hints=hint)
+                s.put('*', 0, [0], [XL], None, form='vara', coll=1, tag=5, scale=1)
                 s.op('*', 'buffer_attach', size=1 << 20)
                 tag = 0; slot = 0
                 for n in sizes_for(xt):
@@ -75,7 +76,7 @@ def gen_buffers(thorough):
                             elif path == 'erange':
                                 if mem != 'double' or xt in (D.NC_DOUBLE, D.NC_FLOAT): continue
                                 # values far outside the external type: NC_ERANGE, buffer still untouched
-                                ln = s.op('*', 'put', expect_rc=D.NC_ERANGE, f=0, form='vara', v=0, s=st, c=ct, coll=1, mem='double', lay=lay, tag=tag, scale=10 ** 17)
+                                ln = s.op('*', 'put', expect_rc=D.NC_ERANGE, f=0, form='vara', v=0, s=st, c=ct, coll=1, mem='double', lay=lay, vals=','.join(['1e30'] * n))
                                 s.add_expect(ln, lambda o, rk, ln=ln: None if o.get('mod') == '0' else (('buffer_modified', 'put', 'NC_ERANGE return'), 'line %d: buffer changed by a put that returned NC_ERANGE' % ln))
                                 s.put('*', 0, st, ct, None, form='vara', coll=1, tag=tag, mem=mem, scale=1)      # restore model-known content
                             elif path == 'eiomismatch':
@@ -86,6 +87,29 @@ def gen_buffers(thorough):
                         # reads change exactly the bytes of the type map
                         s.get('*', 0, st, [n], None, form='vara', coll=1, mem=mem, lay=lay, what='read into guarded buffer')
                         if n >= 2 and not lay: s.get('*', 0, st, [n], [1], form='varm', imap=[2], coll=1, mem=mem, what='read through padded imap')
+                # several requests pending at once: cancel / complete ONE of them by id (every queue position), then the rest
+                for n in sizes_for(xt)[2:]:
+                    for which in (0, 1, 2):
+                        for how in ('cancel', 'wait'):
+                            tag = tag % 80 + 1
+                            regs = [(0, [3], [n]), (0, [3 + n + 5], [n]), (1, [0, 0], [1, n])]
+                            posted = []
+                            for j, (v, st, ct) in enumerate(regs):
+                                ln, idx, vals = s.put('*', v, st, ct, None, form='vara', nb='i', req=40 + j, tag=tag + j, update=False, mem=mem, scale=1)
+                                posted.append((v, idx, vals))
+                            s.op('*', 'cancel' if how == 'cancel' else 'wait', f=0, ids=['q%d' % (40 + which)], **({} if how == 'cancel' else {'all': 1}))
+                            if how == 'wait': s.model.put_idx(posted[which][0], posted[which][1], posted[which][2])
+                            for j in (which,):        # buffers of requests that are still pending may legitimately be in swapped state
+                                lr = s.op('*', 'rbuf', req=40 + j)
+                                s.add_expect(lr, lambda o, rk, lr=lr, j=j, which=which, how=how: None if o.get('mod') == '0' else (('buffer_modified', 'iput', '%s of another/own request while several are pending' % how), 'line %d: buffer of request %d changed after %s of request %d' % (lr, j, how, which)))
+                            rest = [j for j in range(3) if j != which]
+                            s.op('*', 'wait', f=0, ids=['q%d' % (40 + j) for j in rest], all=1)
+                            for j in rest: s.model.put_idx(posted[j][0], posted[j][1], posted[j][2])
+                            for j in range(3):
+                                lr = s.op('*', 'rbuf', req=40 + j)
+                                s.add_expect(lr, lambda o, rk, lr=lr, j=j: None if o.get('mod') == '0' else (('buffer_modified', 'iput', 'after final wait'), 'line %d: buffer of request %d changed' % (lr, j)))
+                            s.get('*', 0, [0], [2 * n + 12], None, form='vara', coll=1, what='file content (multi)')
+                            s.get('*', 1, [0, 0], [1, n], None, form='vara', coll=1, what='file content (multi)')
                 s.op('*', 'buffer_detach')
                 s.finish(reopen=False, decode=False)
                 scripts.append(s)
